@@ -167,7 +167,7 @@ impl Check for C15 {
         (tape(20..60), proptest::collection::vec(tape(20..60), 8..=8)).prop_map(|(g, i)| gen_comment_case(&g, &i)).boxed()
     }
     fn cases(&self, tier: Tier) -> u32 {
-        tier.pick(3000, 80000)
+        tier.pick(50000, 800000)
     }
     fn run(&self, c: &CommentCase, st: &mut Stats) -> Verdict {
         let g = comment_grammar(c);
@@ -379,7 +379,7 @@ impl Check for C16 {
         proptest::strategy::Union::new_weighted(vec![(2, fixed.boxed()), (1, scan.boxed())]).boxed()
     }
     fn cases(&self, tier: Tier) -> u32 {
-        tier.pick(6000, 150000)
+        tier.pick(80000, 1200000)
     }
     fn shards(&self, _tier: Tier) -> usize {
         16
